@@ -47,14 +47,14 @@ Ltac peel H x okl :=
 Definition forall_ck (P : ck -> bool) : bool :=
   forallb (fun a => forallb (fun b => forallb (fun c => forallb (fun d => forallb (fun e =>
   forallb (fun f => forallb (fun g => forallb (fun h => forallb (fun i => forallb (fun j =>
-  forallb (fun k => forallb (fun l => P (mkCk a b c d e f g h i j k l))
-  all_gc) all_bool) all_bool) all_bool) all_bool) all_bool) all_bool) all_bool) all_cstage) all_ccause_o) all_bool) all_bool.
+  forallb (fun k => forallb (fun k2 => forallb (fun l => P (mkCk a b c d e f g h i j k k2 l))
+  all_gc) all_bool) all_bool) all_bool) all_bool) all_bool) all_bool) all_bool) all_bool) all_cstage) all_ccause_o) all_bool) all_bool.
 Lemma forall_ck_ok P : forall_ck P = true -> forall k, P k = true.
 Proof.
-  intros H [a b c d e f g h i j k l]. unfold forall_ck in H.
+  intros H [a b c d e f g h i j k k2 l]. unfold forall_ck in H.
   peel H a all_bool_ok. peel H b all_bool_ok. peel H c all_ccause_o_ok. peel H d all_cstage_ok.
   peel H e all_bool_ok. peel H f all_bool_ok. peel H g all_bool_ok. peel H h all_bool_ok.
-  peel H i all_bool_ok. peel H j all_bool_ok. peel H k all_bool_ok. peel H l all_gc_ok. exact H.
+  peel H i all_bool_ok. peel H j all_bool_ok. peel H k all_bool_ok. peel H k2 all_bool_ok. peel H l all_gc_ok. exact H.
 Qed.
 
 Definition forall_sv (P : sv -> bool) : bool :=
@@ -129,7 +129,9 @@ Definition kinv (k : ck) : bool :=
                negb (k_half k) && negb (k_sig k) && negb (k_watched k))) &&
   Bool.eqb (cstage_eqb (k_stage k) F0) (is_none (k_done k)) &&
   (* the table entry lives from newStream to the winner's removeStream *)
-  Bool.eqb (k_tab k) (k_new k && (cstage_eqb (k_stage k) F0 || cstage_eqb (k_stage k) FWon)) &&
+  Bool.eqb (k_tab k) (k_new k && negb (k_chend k) && (cstage_eqb (k_stage k) F0 || cstage_eqb (k_stage k) FWon)) &&
+  (* the end of the channel cancels every stream it had *)
+  implb (k_chend k && k_new k) (k_ctx k) &&
   Bool.eqb (k_sig k) (cstage_eqb (k_stage k) FPub) &&
   implb (k_cancel_go k)
         (cstage_eqb (k_stage k) FPub && match k_done k with Some c => negb (by_loop c) | None => false end) &&
@@ -147,10 +149,10 @@ Definition kem_ok (k k' : ck) (em : list cframe) : bool :=
   else match em with [] => negb (k_new k') | [FNew] => k_new k' | _ => false end.
 
 Definition all_klbl : list klbl :=
-  [CNew; CSend; CHalf; CCtxEnd; CReadBad; CWuCheck; CWuSend; CWatch; CRemove; CPublish; CGoCancel] ++
+  [CNew; CSend; CHalf; CCtxEnd; CReadBad; CWuCheck; CWuSend; CWatch; CRemove; CPublish; CGoCancel; CChanEnd] ++
   flat_map (fun f => [CLoop f true; CLoop f false]) all_sframe.
 Lemma all_klbl_ok : forall l, In l all_klbl.
-Proof. intros [| | | | | | | | | | |[] []]; cbn; tauto. Qed.
+Proof. intros [| | | | | | | | | | | |[] []]; cbn; tauto. Qed.
 
 Definition kcheck (k : ck) : bool :=
   if negb (kinv k) then true else
